@@ -69,6 +69,7 @@ theorem effect_thread {net : Net} {s s' : NState} {t : Nat} {ts : TSt} {i : Inst
   | finish sv out _ =>
     exact ⟨(key { s with outcome := some out } _ rfl).1, _, (key { s with outcome := some out } _ rfl).2, .quiet rfl rfl⟩
   | dropEpi => exact ⟨(key s _ rfl).1, _, (key s _ rfl).2, .quiet rfl rfl⟩
+  | setEpi ms => exact ⟨(key s _ rfl).1, _, (key s _ rfl).2, .quiet rfl rfl⟩
 
 /-- how the kill flag / reason of mailbox `m` changes in a step of a thread with state `ts` and head instruction `i` -/
 def MbStep (s s' : NState) (ts : TSt) (i : Instr) (m : Nat) : Prop :=
@@ -139,6 +140,7 @@ theorem effect_mbs {net : Net} {s s' : NState} {t : Nat} {ts : TSt} {i : Instr} 
       exact ⟨fun a' ha' => ⟨a', ha', Or.inl ⟨rfl, rfl⟩⟩, fun a ha => ⟨a, ha⟩⟩
   | finish sv out _ => exact .same rfl
   | dropEpi => exact .same rfl
+  | setEpi ms => exact .same rfl
 
 /-! ### the invariant about exceptions and kills -/
 
@@ -433,23 +435,27 @@ theorem head_finish (hT : TreeNet net c) (hinv : TInv net c s) {t : Nat} {th : T
       · exact suffix_head_mem hs
     have hsv : sv' = sv := by
       rw [he] at hfin
-      simp only [List.mem_append, List.mem_map, List.mem_range, List.mem_singleton] at hfin
-      rcases hfin with (⟨_, _, h3⟩ | ⟨_, _, h3⟩) | h3
+      simp only [List.mem_append, List.mem_cons, List.mem_map, List.mem_range, List.not_mem_nil,
+        or_false] at hfin
+      rcases hfin with ((h3 | ⟨_, _, h3⟩) | ⟨_, _, h3⟩) | h3
+      · cases h3
       · cases h3
       · cases h3
       · cases h3; rfl
     subst hsv
     refine ⟨hmain, ?_, hfin⟩
-    have hnot : Instr.finish sv' ∉ (List.range net.mbs.length).map Instr.killIfExc ++ (List.range (net.threads.length - 1)).map Instr.join := by
-      simp only [List.mem_append, List.mem_map, List.mem_range]
-      rintro (⟨_, _, h3⟩ | ⟨_, _, h3⟩) <;> cases h3
+    have hnot : Instr.finish sv' ∉ (Instr.killIfExc (c.src (net.threads.length - 1)).1 ::
+        (List.range net.mbs.length).map Instr.killIfExc) ++ (List.range (net.threads.length - 1)).map Instr.join := by
+      simp only [List.mem_append, List.mem_cons, List.mem_map, List.mem_range]
+      rintro ((h3 | ⟨_, _, h3⟩) | ⟨_, _, h3⟩) <;> cases h3
     obtain ⟨reads, hbody, hreads⟩ : ∃ reads, th.body = reads ++ th.epi ∧
         ∀ i ∈ reads, i = Instr.read (c.src (net.threads.length - 1)).1 (c.src (net.threads.length - 1)).2 ∨ i.isFail = true :=
       ⟨_, hok.2.2.2.2.1, hok.2.2.2.2.2.1⟩
     rcases hmem with ⟨_, hs⟩ | ⟨_, hs⟩
     · rw [hbody, he, ← List.append_assoc] at hs
       have hnot' : Instr.finish sv' ∉ reads ++
-          ((List.range net.mbs.length).map Instr.killIfExc ++ (List.range (net.threads.length - 1)).map Instr.join) := by
+          ((Instr.killIfExc (c.src (net.threads.length - 1)).1 :: (List.range net.mbs.length).map Instr.killIfExc) ++
+            (List.range (net.threads.length - 1)).map Instr.join) := by
         intro hm
         rcases List.mem_append.mp hm with hm | hm
         · rcases hreads _ hm with h3 | h3
@@ -522,6 +528,7 @@ theorem effect_prog {net : Net} {s s' : NState} {t : Nat} {ts : TSt} {i : Instr}
   | kill _ m own r _ _ => exact ⟨⟨_, key _ _ (by simp), Or.inl hadv⟩, Or.inl (by simp)⟩
   | finish sv out _ => exact ⟨⟨_, key { s with outcome := some out } _ rfl, Or.inl hadv⟩, Or.inr ⟨sv, rfl⟩⟩
   | dropEpi => exact ⟨⟨_, key s _ rfl, Or.inl (by simp [TSt.advance, hp])⟩, Or.inl rfl⟩
+  | setEpi ms => exact ⟨⟨_, key s _ rfl, Or.inl (by simp [TSt.advance, hp])⟩, Or.inl rfl⟩
 
 section
 variable {net : Net} {c : Cert} {s : NState}
@@ -625,7 +632,8 @@ theorem OutInv.step (hT : TreeNet net c) (hinv : TInv net c s) (ho : OutInv net 
               · exact h1
             rw [he] at this
             obtain ⟨p, hp'⟩ := this
-            have hl : (p ++ [i]).getLast? = (((List.range net.mbs.length).map Instr.killIfExc ++
+            have hl : (p ++ [i]).getLast? = (((Instr.killIfExc (c.src (net.threads.length - 1)).1 ::
+                (List.range net.mbs.length).map Instr.killIfExc) ++
                 (List.range (net.threads.length - 1)).map Instr.join) ++ [Instr.finish sv]).getLast? := by rw [hp']
             simp only [List.getLast?_append, List.getLast?_singleton, Option.some_or] at hl
             exact ⟨sv, by simpa using hl⟩
@@ -774,14 +782,17 @@ theorem returned_means_clean (hT : TreeNet net c) (hSL : SinksListed net c) (hr 
     obtain ⟨sv0, he⟩ := hmainOk.epi_eq
     have hsv : sv = sv0 := by
       rw [he] at hfinmem
-      simp only [List.mem_append, List.mem_map, List.mem_range, List.mem_singleton] at hfinmem
-      rcases hfinmem with (⟨_, _, h3⟩ | ⟨_, _, h3⟩) | h3
+      simp only [List.mem_append, List.mem_cons, List.mem_map, List.mem_range, List.not_mem_nil,
+        or_false] at hfinmem
+      rcases hfinmem with ((h3 | ⟨_, _, h3⟩) | ⟨_, _, h3⟩) | h3
+      · cases h3
       · cases h3
       · cases h3
       · cases h3; rfl
     unfold SinksListed at hSL
     rw [hthm] at hSL; simp only at hSL
-    have hl : thm.epi.getLast? = some (.finish sv0) := by rw [he]; simp
+    have hl : thm.epi.getLast? = some (.finish sv0) := by
+      rw [he, List.getLast?_append]; simp
     rw [hl] at hSL; simp only at hSL
     rw [hsv]; exact hSL
   -- (B) no sender holds an exception
